@@ -16,8 +16,10 @@
 (* reopening, interrupted vs re-executed, original vs re-applied).         *)
 (*                                                                         *)
 (* Every judgement has a tag naming the property predicate it belongs to;  *)
-(* the first failed judgement of a trace is recorded in `err` and the     *)
-(* rest of that trace is only consumed (a diverged state cannot cascade).  *)
+(* failed judgements are recorded in `err`.  The specification's state is  *)
+(* driven by its own actions, never by logged values, so a failed          *)
+(* judgement cannot cascade; only when the real code itself failed (or the *)
+(* known finding struck) the rest of that trace is merely consumed.        *)
 (* Each property's configuration lists only its own invariant, so the      *)
 (* invariant TLC reports is the verdict for exactly that property.         *)
 (***************************************************************************)
@@ -26,7 +28,7 @@ EXTENDS MultiStore, IOUtils
 Trace == ndJsonDeserialize(IOEnv.TRACE_FILE)
 
 VARIABLES l,        \* next line to consume
-          err,     \* set of <<line, op, tag>>: first failed judgement of each trace
+          err,      \* set of <<line, op, tag>>: failed judgements
           bad,      \* the current trace has diverged: consume only, until the next reset
           ctx,      \* last event that stopped the process (kept even while `bad`)
           nknown,   \* occurrences of the known finding C07-firstblock in the log
@@ -69,8 +71,8 @@ AllZero(seq) == \A i \in 1..Len(seq) : seq[i] = 0
 \* record the outcome of one judged step
 Outcome(tag, op) ==
     IF tag = "" THEN err' = err /\ bad' = bad
-    ELSE /\ err' = err \cup {<<l, op, tag>>}
-         /\ bad' = TRUE
+    ELSE /\ err' = IF Cardinality(err) < 40 THEN err \cup {<<l, op, tag>>} ELSE err
+         /\ bad' = bad       \* a failed judgement does not touch the specification's own state: go on judging
          /\ PrintT(<<"TRACE-ERROR", l, op, tag>>)
 
 -----------------------------------------------------------------------------
@@ -211,7 +213,8 @@ OnDropView(e) ==
 
 OnProtocol(e) ==  \* the database writes of a commit do not have the shape the specification models
     /\ UNCHANGED <<vars, ctx, nknown, hmap, amap>>
-    /\ Outcome("Model_CommitProtocol", e.op)
+    /\ err' = err \cup {<<l, e.op, "Model_CommitProtocol">>} /\ bad' = TRUE
+    /\ PrintT(<<"TRACE-ERROR", l, e.op, "Model_CommitProtocol">>)
 
 \* the real code panicked / returned an error where the driver expected success
 FailTag(e, w) ==
